@@ -6,6 +6,15 @@ correspond exhaustive grid (precision -12..12 x coordinate magnitude class x pos
            for the direct kernels; every export function) in a normal build and a -fno-exceptions build: every outcome of the real
            code must equal ErrorModel's (exception / error code / empty / input returned / result bit-identical to
            descale(entry64(model's scaled arguments))) and must satisfy the property.
+
+How a cell is judged ("reported", from the property text):
+  * exceptions build: a Clipper2Exception carrying the code of one of the cell's invalidities is thrown;
+  * -fno-exceptions build: the result is empty AND, where the entry point has an error-code channel at all (ScalePath/ScalePaths'
+    int& argument, ClipperD::ErrorCode()), the bit of one of the invalidities is set.  Free functions returning PathsD/PathD,
+    MakePath and PolyPathD have no such channel: for them the empty result is the report.
+  * C exports: negative return value / nullptr before anything is computed (or the exception of the C++ layer).
+Not judged (tie to the model only): an *empty input* (empty rectangle / no paths) together with an invalid precision -- the
+answer is empty whatever the precision, nothing is computed from it, nothing is "accepted"; a coordinate of exactly 2^61.
 """
 import os, json
 import vf
@@ -169,6 +178,8 @@ def tie_outcome(rec, inputs=None):
 
 def invalidities(cell, M):
     inv = set()
+    if cell.get('deg') in ('emptyrect', 'emptypaths'):
+        return inv          # nothing is computed: the (empty) answer does not depend on the precision (C11_rectclip_empty_input)
     if not -8 <= cell['p'] <= 8:
         inv.add('precision')
     if cell['mag'] in ('overflow', '1e300', 'inf', 'nan'):
@@ -194,31 +205,40 @@ def reported(D, inv, exc):
     return True
 
 
-def key_for(cell, inv, exc, D, M, ignored_in_exc):
+def is_known(ctx, key):
+    return any(k['key'] == key for k in ctx.known)
+
+
+def has_code(D):
+    return D.kind == 'OK' and D.ec is not None and D.ec != -1
+
+
+def key_for(cell, inv, exc, D, M):
+    """classifier of a silent acceptance, from what was observed:
+       report.nan-coordinate.unchecked      a NaN coordinate passed the range test(s) into the (undefined) conversion, as the model predicts
+       report.<fam>.<what>-unchecked        exceptions build: nothing thrown (what = precision-ignored | range | rect-range)
+       report.<fam>.<what>-wrong-exception  exceptions build: an exception of another kind
+       report.<fam>.<what>-nonempty-noexc   no-exception build: (the code, where there is one, is set but) a non-empty result is returned
+       report.<fam>.<what>-code-missing-noexc  no-exception build: the entry point has an error code and its bit is not set"""
     fam = FAM[cell['entry']]
-    if cell.get('deg') == 'delta0':
-        return 'report.inflateD.delta0-before-errorcode'
-    if cell.get('deg') in ('emptyrect', 'emptypaths'):
-        return 'report.rectclipD.empty-input-before-precision'
-    if 'precision' in inv and len(inv) == 1 or ('precision' in inv and M.kind != 'OK' and M.kind != 'CODE'):
-        if exc or ignored_in_exc:
-            return 'report.%s.precision-ignored' % fam
-        return 'report.%s.precision-nonempty-noexc' % fam
-    if 'precision' in inv and fam == 'minkowskiD':
-        return 'report.minkowskiD.precision-ignored'
-    what = 'nan' if 'nan' in inv else 'range'
-    if cell['pos'] == 'rect':
-        return 'report.rectclipD.rect-range-unchecked'
-    if exc or ignored_in_exc:
-        if fam in SCALEPATHS_USERS:
-            return 'report.scalepaths.%s-unchecked' % what
-        return 'report.%s.range-unchecked' % fam
+    if cell.get('deg') == 'delta0' and not exc and 'precision' in inv:
+        return 'report.inflateD.delta0-before-errorcode'        # InflatePaths(PathsD): `if (!delta) return paths;` before `if (error_code)`
+    if 'nan' in inv and 'precision' not in inv and D.kind == 'OK' and M.value == 'UNDEF':
+        return 'report.nan-coordinate.unchecked'
     if 'precision' in inv:
-        return 'report.%s.precision-nonempty-noexc' % fam
-    return 'report.%s.range-nonempty-noexc' % fam
+        what, bit = 'precision', 1
+    else:
+        what, bit = ('rect-range' if cell['pos'] == 'rect' else 'range'), 64
+    if exc:
+        if D.kind == 'THROW':
+            return 'report.%s.%s-wrong-exception' % (fam, what)
+        return 'report.%s.%s' % (fam, 'precision-ignored' if what == 'precision' else what + '-unchecked')
+    if has_code(D) and not D.ec & bit:
+        return 'report.%s.%s-code-missing-noexc' % (fam, what)
+    return 'report.%s.%s-nonempty-noexc' % (fam, what)
 
 
-def judge_cell(ctx, rec, exc, ignored):
+def judge_cell(ctx, rec, exc):
     c, D, M = rec['case'], rec['D'], rec['M']
     cell = c.cell
     build = 'exceptions' if exc else 'noexc'
@@ -241,32 +261,39 @@ def judge_cell(ctx, rec, exc, ignored):
     tie_ok = why is None
     # property
     inv = invalidities(cell, M)
-    cellid = (cell['entry'], cell['p'], cell['mag'], cell['pos'], cell['sign'], cell['deg'])
     violated = False
-    if cell['mag'] == 'edge':
-        pass                        # exactly 2^61 = MAX_COORD + 1: accepted by the double comparison; tie only
-    elif inv:
+    key = None
+    if inv:
         if not reported(D, inv, exc):
             violated = True
-            if exc:
-                ignored.add(cellid)
-            key = key_for(cell, inv, exc, D, M, cellid in ignored)
+            key = key_for(cell, inv, exc, D, M)
             viol(ctx, key, '%s(precision %d, %s at %s) [%s build]: invalid %s not reported: outcome %s (model: %s)'
                           % (cell['entry'], cell['p'], cell['mag'], cell['pos'], build, '+'.join(sorted(inv)), D.line[:120], M.line[:60]),
                           replay=rp)
             ctx.hist('silent_acceptances', key)
+        else:
+            ctx.count('invalid_cells_reported')
+    elif cell['mag'] == 'edge':
+        pass                        # exactly 2^61 = MAX_COORD + 1 with a valid precision: accepted by the double comparison; tie only
+    elif cell.get('deg') in ('emptyrect', 'emptypaths') and not -8 <= cell['p'] <= 8:
+        pass                        # empty input + invalid precision: either answer (empty result / report) satisfies the property; tie only
     else:
         # valid cell: must succeed with the computed result (or the documented shortcut), no error
         if D.kind != 'OK' or (D.ec not in (None, -1, 0)):
             violated = True
-            viol(ctx, 'valid-input-rejected.%s' % FAM[cell['entry']], '%s(precision %d, %s) [%s]: valid input gave %s'
+            key = 'valid-input-rejected.%s' % FAM[cell['entry']]
+            viol(ctx, key, '%s(precision %d, %s) [%s]: valid input gave %s'
                           % (cell['entry'], cell['p'], cell['mag'], build, D.line[:100]), replay=rp)
         if cell['deg'] == 'noclip' and not is_empty_result(D):
             violated = True
-            viol(ctx, 'noclip.nonempty', '%s with ClipType::NoClip returned a non-empty solution: %s' % (cell['entry'], D.line[:120]), replay=rp)
+            key = 'noclip.nonempty'
+            viol(ctx, key, '%s with ClipType::NoClip returned a non-empty solution: %s' % (cell['entry'], D.line[:120]), replay=rp)
         if tie_ok and D.kind == 'OK' and not is_empty_result(D):
             ctx.count('valid_nonempty')
-    if not tie_ok:
+    if not tie_ok and not (violated and not is_known(ctx, key)):
+        # the model must predict the code everywhere -- in particular on the cells of a known finding (that is what makes the key
+        # narrow: a listed finding whose cell no longer behaves as modelled is a new violation).  Where the cell already reports
+        # a property violation under a key that is not listed, that report stands for the cell.
         viol(ctx, 'tie-break:%s' % cell['entry'], 'ErrorModel disagrees with the code on cell %s [%s]: %s; code: %s; model: %s'
                       % (c.tag, build, why, D.line[:100], M.line[:80]), replay=rp, nofail=not violated and not inv)
     elif not violated:
@@ -329,48 +356,74 @@ def judge_kernel(ctx, exc, meta, hline, oline, h, o):
     H = S.Res(h)
     O = S.Res(o) if not o.startswith('UB') else None
     ub = O is None
+    tie_why = None
     if not ub:
         same = ((H.kind == O.kind == 'OK' and (H.ec == O.ec) and S.sets_bits(H.sets) == S.sets_bits(O.sets))
                 or (H.kind == O.kind == 'THROW' and H.code == O.code and (H.ec == -1 or O.ec == -1 or H.ec == O.ec)))
         if not same:
-            viol(ctx, 'tie-break:%s' % k, '%s [%s]: code %s model %s' % (hline[:120], build, h[:120], o[:120]), replay=rp)
+            tie_why = '%s [%s]: code %s model %s' % (hline[:120], build, h[:120], o[:120])
     elif H.kind != 'OK':
-        viol(ctx, 'tie-break:%s' % k, '%s [%s]: model says unchecked conversion (UB), code %s' % (hline[:120], build, h[:120]), replay=rp)
+        tie_why = '%s [%s]: model says unchecked conversion (UB), code %s' % (hline[:120], build, h[:120])
+    key = judge_kernel_property(ctx, exc, meta, hline, h, o, H, O, ub, rp)
+    if tie_why and not (key and not is_known(ctx, key)):
+        viol(ctx, 'tie-break:%s' % k, tie_why, replay=rp)
+    elif not tie_why and key is None:
+        ctx.count('cells_agreeing_and_satisfying')
+
+
+def judge_kernel_property(ctx, exc, meta, hline, h, o, H, O, ub, rp):
+    """returns the key of the property violation reported for this kernel cell, or None"""
+    build = 'exceptions' if exc else 'noexc'
+    k = meta['k']
     # property
     inv = set()
     if k in ('makepath', 'makepathd') and meta['n'] % 2:
         inv.add('odd-count')
     if k in ('scalepath', 'scalepaths', 'descalepath', 'descalepaths', 'polypathd') and ('zero' in (meta['sx'], meta['sy']) or 'negzero' in (meta['sx'], meta['sy'])):
-        if k not in ('scalepaths',) or True:
-            inv.add('zero-scale')
+        inv.add('zero-scale')
     if k in ('scalepath', 'scalepaths'):
         # does a scaled coordinate leave the integer range?  decided from the model: conversion undefined, or a range error,
         # or |result| > MAX_COORD
         if ub or (O.kind == 'THROW' and O.code == 64) or (O.kind == 'OK' and O.ec is not None and O.ec & 64):
-            inv.add('range')
+            inv.add('nan' if (ub and meta['coord'] == 'nan') else 'range')
         elif O.kind == 'OK' and any(abs(int(a)) > (1 << 61) or abs(int(b)) > (1 << 61) for s in O.sets for p in s for a, b in p):
             inv.add('range')
     if not inv:
         if H.kind != 'OK':
             viol(ctx, 'valid-input-rejected.%s' % k, '%s [%s]: %s' % (hline[:100], build, h[:100]), replay=rp)
-        return
+            return 'valid-input-rejected.%s' % k
+        return None
     if reported(H, inv, exc):
-        return
+        ctx.count('invalid_cells_reported')
+        return None
+    kk = {'makepathd': 'makepath', 'polypathd': 'polypathD', 'descalepath': 'scalepath', 'descalepaths': 'scalepath'}.get(k, k)
+    code_channel = has_code(H)
     if 'odd-count' in inv:
+        # MakePath has no error code: without exceptions the only possible report is an empty path
         key = 'report.makepath.odd-count-silent-noexc' if not exc else 'report.makepath.odd-count-ignored'
-    elif 'zero-scale' in inv and H.kind == 'OK' and (H.ec in (None, -1) or not H.ec & 2) and k == 'polypathd':
-        key = 'report.polypathD.zero-scale-silent-noexc' if not exc else 'report.polypathD.zero-scale-ignored'
-    elif 'zero-scale' in inv and 'range' not in inv:
-        if k == 'scalepaths' and H.kind == 'OK' and H.ec == 0:
-            key = 'report.scalepaths.zero-scale-ignored'
-        else:
-            key = 'report.scalepath.zero-scale-nonempty-noexc' if not exc else 'report.scalepath.zero-scale-ignored'
-    elif k == 'scalepaths':
-        key = 'report.scalepaths.nan-unchecked' if meta['coord'] == 'nan' else ('report.scalepaths.range-nonempty-noexc' if not exc else 'report.scalepaths.range-unchecked')
+    elif 'nan' in inv and ub and H.kind == 'OK':
+        key = 'report.nan-coordinate.unchecked'
+    elif 'range' in inv and (exc or not (code_channel and H.ec & 64)):
+        # the range test did not fire at all (no exception / bit 64 not set)
+        key = 'report.%s.range-unchecked' % kk
+    elif 'zero-scale' in inv and not exc and code_channel and H.ec & 2:
+        # ScalePath (also inside ScalePaths, and in the descaling direction): scale_error_i is set, the scale becomes 1 and the
+        # path is returned.  (With an oversized coordinate as well: x * 0 passes ScalePaths' test on the whole set, ScalePath's own
+        # test with the repaired scale 1 then empties that one path and sets bit 64 -- the other paths still come back.)
+        key = 'report.scalepath.zero-scale-nonempty-noexc'
+    elif 'range' in inv:
+        key = 'report.%s.range-nonempty-noexc' % kk
+    elif exc:
+        key = 'report.%s.zero-scale-ignored' % kk
+    elif not code_channel:
+        key = 'report.%s.zero-scale-silent-noexc' % kk               # PolyPathD::AddChild: the code is a dead local
+    elif not H.ec & 2:
+        key = 'report.%s.zero-scale-code-missing-noexc' % kk
     else:
-        key = 'report.scalepath.range-unchecked'
+        key = 'report.%s.zero-scale-unclassified' % kk
     viol(ctx, key, '%s [%s]: invalid %s not reported: %s (model %s)' % (hline[:140], build, '+'.join(sorted(inv)), h[:100], o[:60]), replay=rp)
     ctx.hist('silent_acceptances', key)
+    return key
 
 
 # ----------------------------------------------------------------------------- C export layer
@@ -473,9 +526,8 @@ def export_i_line(cell, call):
     return None
 
 
-def run_exports(ctx, exc, xerr, xscale, oracle):
-    build = 'exceptions' if exc else 'noexc'
-    cells = export_cells()
+def run_exports(ctx, exc, xerr, xscale, oracle, cells=None):
+    cells = export_cells() if cells is None else cells
     hl, f1 = vf.par_lines(xerr, [c['hline'] for c in cells], timeout=120)
     ol, f2 = vf.par_lines(oracle, ['X %d %s' % (1 if exc else 0, c['oline']) for c in cells])
     if f2:
@@ -518,70 +570,91 @@ def run_exports(ctx, exc, xerr, xscale, oracle):
     for k, c in enumerate(cells):
         H, M, o = parsed[k][0], parsed[k][1], parsed[k][2]
         I = parsed[k][3] if len(parsed[k]) > 3 else None
-        ctx.count('evaluations')
-        ctx.hist('export_cells_%s' % build, '%s/%s' % (c['x'], c['mag']))
-        rp = dict(export=c['hline'], oexport=c['oline'], build=build, cell={q: c[q] for q in ('x', 'ct', 'fr', 'p', 'mag', 'pos', 'sign')})
-        if H.kind == 'ERR':
-            viol(ctx, 'report.export%s.crash' % c['x'], '%s [%s] crashed on %s' % (c['x'], build, c['hline'][:200]), replay=rp)
-            continue
-        # --- tie
-        why = None
-        if o.startswith('RC'):
-            if H.rc != int(o.split()[1]):
-                why = 'model %s' % o
-        elif o.startswith('GO'):
-            if H.rc != 0:
-                why = 'model: accepted, return 0'
-        elif o.startswith('NULL'):
-            if not H.null:
-                why = 'model: nullptr'
-        elif M.kind == 'THROWN':
-            if not (H.kind == 'THROW' and H.code == M.code):
-                why = 'model: throws %d' % M.code
-        elif M.value == 'UNDEF':
-            pass
-        elif M.value == 'CALL':
-            if H.kind != 'OK' or (H.rc not in (None, 0)):
-                why = 'model: computed result'
-            elif I is not None and c['x'] != 'BooleanOp_PolyTreeD':
-                if I.kind != 'OK' or S.sets_bits(H.sets) != S.sets_bits(exp[k]):
-                    why = 'result differs from descale(entry64(model arguments))'
-        if why:
-            viol(ctx, 'tie-break:export.%s' % c['x'], '%s [%s]: %s; code %s' % (c['hline'][:120], build, why, H.line[:100]), replay=rp, nofail=True)
-        # --- property
-        inv = set()
-        if c['ct'] is not None and c['ct'] > 4:
-            inv.add('cliptype')
-        if c['fr'] is not None and c['fr'] > 3:
-            inv.add('fillrule')
-        if c['p'] is not None and not -8 <= c['p'] <= 8:
-            inv.add('precision')
-        rng_bad = c['mag'] in ('overflow', '1e300', 'inf', 'nan') and M is not None and M.rng is False
-        rejected = (H.rc is not None and H.rc < 0) or H.null
-        if H.rc is not None:
-            # C11_export_rejects on the real code: negative <-> invalid enum/precision, with the model's priority
-            want = -5 if 'precision' in inv else (-4 if 'cliptype' in inv else (-3 if 'fillrule' in inv else None))
-            if want is not None and H.rc != want:
-                viol(ctx, 'export.%s.reject-code' % c['x'], '%s(ct=%s fr=%s p=%s) [%s] returned %d, expected %d' % (c['x'], c['ct'], c['fr'], c['p'], build, H.rc, want), replay=rp)
-            if want is None and H.rc != 0 and not rng_bad:
-                viol(ctx, 'export.%s.valid-rejected' % c['x'], '%s(ct=%s fr=%s p=%s) [%s] returned %d on valid arguments' % (c['x'], c['ct'], c['fr'], c['p'], build, H.rc), replay=rp)
-        elif inv and not rejected and H.kind != 'THROW':
-            viol(ctx, 'export.%s.precision-accepted' % c['x'], '%s(p=%s) [%s] not rejected: %s' % (c['x'], c['p'], build, H.line[:80]), replay=rp)
-        if not inv and c['mag'] != 'edge' and rng_bad:
-            rep = (H.kind == 'THROW' and H.code == 64) or rejected or (not exc and S.Res.__dict__ and is_empty_result(H) and H.rc is None)
-            if exc and H.kind == 'OK' and H.null and not o.startswith('NULL'):
-                rep = False         # nullptr here only means "the garbage result happened to be empty"
-            if not exc and H.null and not o.startswith('NULL'):
-                rep = False
-            if not rep:
-                if c['x'].startswith('BooleanOp'):
-                    key = 'report.scalepaths.nan-unchecked' if c['mag'] == 'nan' else 'report.exportBooleanOpD.range-nonempty-noexc'
-                else:
-                    key = 'report.exportD.range-unchecked'
-                viol(ctx, key, '%s(p=%s, %s at %s) [%s]: coordinates leaving the integer range not reported: %s' % (c['x'], c['p'], c['mag'], c['pos'], build, H.line[:100]), replay=rp)
-                ctx.hist('silent_acceptances', key)
-        if not inv and not rng_bad and c['mag'] in ('fits', 'justfits') and not why:
-            ctx.count('cells_agreeing_and_satisfying')
+        judge_export(ctx, exc, c, H, M, o, I, exp.get(k))
+
+
+def judge_export(ctx, exc, c, H, M, o, I, expk):
+    build = 'exceptions' if exc else 'noexc'
+    ctx.count('evaluations')
+    ctx.hist('export_cells_%s' % build, '%s/%s' % (c['x'], c['mag']))
+    rp = dict(export=c['hline'], oexport=c['oline'], build=build, cell={q: c[q] for q in ('x', 'ct', 'fr', 'p', 'mag', 'pos', 'sign')})
+    if H.kind == 'ERR':
+        viol(ctx, 'report.export%s.crash' % c['x'], '%s [%s] crashed on %s' % (c['x'], build, c['hline'][:200]), replay=rp)
+        return
+    # --- tie
+    why = None
+    if o.startswith('RC'):
+        if H.rc != int(o.split()[1]):
+            why = 'model %s' % o
+    elif o.startswith('GO'):
+        if H.rc != 0:
+            why = 'model: accepted, return 0'
+    elif o.startswith('NULL'):
+        if not H.null:
+            why = 'model: nullptr'
+    elif M.kind == 'THROWN':
+        if not (H.kind == 'THROW' and H.code == M.code):
+            why = 'model: throws %d' % M.code
+    elif M.value == 'UNDEF':
+        pass
+    elif M.value == 'CALL':
+        if H.kind != 'OK' or (H.rc not in (None, 0)):
+            why = 'model: computed result'
+        elif I is not None and c['x'] != 'BooleanOp_PolyTreeD':
+            if I.kind != 'OK' or S.sets_bits(H.sets) != S.sets_bits(expk):
+                why = 'result differs from descale(entry64(model arguments))'
+    # --- property
+    key = None
+    inv = set()
+    if c['ct'] is not None and c['ct'] > 4:
+        inv.add('cliptype')
+    if c['fr'] is not None and c['fr'] > 3:
+        inv.add('fillrule')
+    if c['p'] is not None and not -8 <= c['p'] <= 8:
+        inv.add('precision')
+    rng_bad = c['mag'] in ('overflow', '1e300', 'inf', 'nan') and M is not None and M.rng is False
+    rejected = (H.rc is not None and H.rc < 0) or H.null
+    if H.rc is not None:
+        # C11_export_rejects on the real code: negative <-> invalid enum/precision, with the model's priority
+        want = -5 if 'precision' in inv else (-4 if 'cliptype' in inv else (-3 if 'fillrule' in inv else None))
+        if want is not None and H.rc != want:
+            key = 'export.%s.reject-code' % c['x']
+            viol(ctx, key, '%s(ct=%s fr=%s p=%s) [%s] returned %d, expected %d' % (c['x'], c['ct'], c['fr'], c['p'], build, H.rc, want), replay=rp)
+        if want is None and H.rc != 0 and not rng_bad:
+            key = 'export.%s.valid-rejected' % c['x']
+            viol(ctx, key, '%s(ct=%s fr=%s p=%s) [%s] returned %d on valid arguments' % (c['x'], c['ct'], c['fr'], c['p'], build, H.rc), replay=rp)
+    elif inv and not rejected and H.kind != 'THROW':
+        key = 'export.%s.precision-accepted' % c['x']
+        viol(ctx, key, '%s(p=%s) [%s] not rejected: %s' % (c['x'], c['p'], build, H.line[:80]), replay=rp)
+    elif not inv and not rng_bad and H.null and not o.startswith('NULL') and M is not None and M.value == 'CALL' and I is not None and I.kind == 'OK' \
+            and any(len(q) for ss in I.sets for q in ss):
+        key = 'export.%s.valid-rejected' % c['x']
+        viol(ctx, key, '%s(p=%s) [%s] returned nullptr on valid arguments with a non-empty expected result' % (c['x'], c['p'], build), replay=rp)
+    if not inv and c['mag'] != 'edge' and rng_bad:
+        rep = (H.kind == 'THROW' and H.code == 64) or rejected
+        if H.kind == 'OK' and H.null and not o.startswith('NULL'):
+            rep = False         # nullptr here only means "the garbage result happened to be empty": nothing was tested
+        if not rep:
+            boolean = c['x'].startswith('BooleanOp')
+            if boolean and c['mag'] == 'nan' and M.value == 'UNDEF':
+                key = 'report.nan-coordinate.unchecked'      # ScalePaths' test is there, NaN passes it
+            elif boolean:
+                # ClipperD did test (ErrorCode() = 64, operand dropped) but the export never reads the code and returns 0
+                key = 'report.exportBooleanOpD.range-nonempty-noexc' if not exc else 'report.exportBooleanOpD.range-unchecked'
+            elif c['pos'] == 'rect':
+                key = 'report.exportD.rect-range-unchecked'  # ScaleRect: no test at all (NaN included)
+            else:
+                key = 'report.exportD.range-unchecked'       # ConvertCPathsDToPaths64 / ConvertCPathDToPath64WithScale: no test at all
+            viol(ctx, key, '%s(p=%s, %s at %s) [%s]: coordinates leaving the integer range not reported: %s' % (c['x'], c['p'], c['mag'], c['pos'], build, H.line[:100]), replay=rp)
+            ctx.hist('silent_acceptances', key)
+        else:
+            ctx.count('invalid_cells_reported')
+    elif inv and key is None:
+        ctx.count('invalid_cells_reported')
+    if why and not (key and not is_known(ctx, key)):
+        viol(ctx, 'tie-break:export.%s' % c['x'], '%s [%s]: %s; code %s' % (c['hline'][:120], build, why, H.line[:100]), replay=rp, nofail=key is None)
+    elif not why and key is None and not inv and not rng_bad and c['mag'] in ('fits', 'justfits'):
+        ctx.count('cells_agreeing_and_satisfying')
 
 
 # ----------------------------------------------------------------------------- driver
@@ -603,9 +676,8 @@ def run_build(ctx, variant, oracle, search=False):
     cells = grid_cells()
     pipe = S.Pipeline(ctx, xscale, oracle, exc=exc)
     recs = pipe.run(cells)
-    ignored = ctx.cov.setdefault('_ignored', set())
     for rec in recs:
-        judge_cell(ctx, rec, exc, ignored)
+        judge_cell(ctx, rec, exc)
     # 3. exports
     run_exports(ctx, exc, xerr, xscale, oracle)
 
@@ -618,8 +690,8 @@ def run(ctx):
             run_build(ctx, variant, oracle, search=not pr['ok'])
         except vf.BuildFailure as e:
             viol(ctx, 'tie-break:harness-build-%s' % variant, 'harness no longer builds [%s]: %s' % (variant, str(e)[-400:]), replay=None, nofail=True)
-    ctx.cov.pop('_ignored', None)
-    # corpus: witnesses of the _refuted theorems and past failures (D-entry bodies, judged in both builds by the grid code above)
+    # (no corpus: the grid is exhaustive and deterministic -- the witnesses of the _refuted theorems and every formerly failing
+    #  input are cells of it and are re-run every time)
     ctx.cov['distinct_nontrivial'] = ctx.cov.get('cells_agreeing_and_satisfying', 0)
     ctx.cov['rule'] = ('exhaustive grid: precision -12..12 x magnitude {fits, just fits (2^61-2^12), edge 2^61, just overflows (2^61+2^12), 1e300, inf, nan} '
                        'x planted position {subject x, subject y, clip x, rectangle} x sign x 17 PathsD entry points (+ delta=0, empty rectangle/paths, '
@@ -628,7 +700,9 @@ def run(ctx):
                        '-fno-exceptions build. non-trivial = cell where code == ErrorModel and the property is satisfied')
     ctx.assumptions += [
         '"integer range" = +-MAX_COORD (INT64_MAX>>2) as tested by ScalePaths; exactly 2^61 (MAX_COORD+1, accepted by the double comparison) is tied to the model but not judged',
-        'for free functions without observable error code, "reported" in a -fno-exceptions build means an empty result',
+        'for entry points without an error-code channel (free functions returning PathsD/PathD, MakePath, PolyPathD::AddChild) "reported" in a -fno-exceptions build means an empty result; where a channel exists (int& error_code, ClipperD::ErrorCode()) the bit must be set AND the result be empty',
+        'an empty rectangle / empty path set with an invalid precision is not judged: the empty answer is independent of the precision (C11_rectclip_empty_input); the cell is only tied to the model',
+        'a NaN coordinate counts as a coordinate that leaves the integer range (DESIGN grid: magnitude class NaN)',
         'out-of-int64 conversions (UB) are executed on x86-64 only to observe that nothing is reported; their numeric results are not compared',
         'success clause: Execute/export return values asserted on every run made here; the all-inputs argument is C01/C10\'s sweep model']
     if not pr['ok'] and not [v for v in ctx.violations if not v['nofail']]:
@@ -650,15 +724,19 @@ def replay(ctx, path):
         ctx.log('build : ' + variant)
         ctx.log('code  : ' + rec['D'].line[:500])
         ctx.log('model : ' + rec['M'].line[:500])
-        judge_cell(ctx, rec, exc, set())
+        judge_cell(ctx, rec, exc)
     elif 'kernel' in rp:
         exe = xerr if rp['kernel'].split()[0] in ('CPR', 'MAKEPATH', 'MAKEPATHD') else xscale
         h = vf.run_lines(exe, [rp['kernel']]).stdout.strip()
         o = vf.run_lines(oracle, ['K %d %s' % (1 if exc else 0, rp['okernel'])]).stdout.strip()
+        ctx.log('build : ' + variant)
         ctx.log('code  : ' + h[:400]); ctx.log('model : ' + o[:400])
         judge_kernel(ctx, exc, rp['meta'], rp['kernel'], rp['okernel'], h, o)
     elif 'export' in rp:
+        cell = dict(rp['cell'])
+        cell.update(hline=rp['export'], oline=rp['oexport'])
         h = vf.run_lines(xerr, [rp['export']]).stdout.strip()
         o = vf.run_lines(oracle, ['X %d %s' % (1 if exc else 0, rp['oexport'])]).stdout.strip()
+        ctx.log('build : ' + variant)
         ctx.log('code  : ' + h[:400]); ctx.log('model : ' + o[:400])
-        viol(ctx, d.get('key', 'export'), 'export replay: code %s model %s' % (h[:100], o[:100]), replay=rp)
+        run_exports(ctx, exc, xerr, xscale, oracle, cells=[cell])
